@@ -6,7 +6,7 @@ import random
 LITS = ['a', 'b', 'A', 'B', 'ab', 'x', '.', '..', 'é', 'ǅ', 'ß', 'K', 'k', '1', 'a.b', 'x.txt', '-', 'a-b', 'ꙮ', ' ', 'i', '!']
 ESC_LITS = ['\\*', '\\?', '\\[', '\\{', '\\,', '\\(', '\\)', '\\<', '\\:', '\\$', 'a\\*b']
 CLASSES = ['[ab]', '[!a]', '[a-c]', '[a]', '[!ab]', '[A-Z]', '[a-a]', '[/]', '[a/]', '[!/]', '[\\-]', '[é]', '[a\\]]',
-           '[b-a]', '[---]', '[a-]', '[!]', '[]]']
+           '[b-a]', '[---]', '[a-]', '[!]', '[]]', '[!b-a]', '[!z-a]', '[xb-a]', '[!xz-a/]']
 BOUNDS = ['', ':', ':0,1', ':1', ':2', ':1,2', ':0,2', ':1,', ':0,', ':2,3', ':3', ':0,3', ':2,']
 ODD_BOUNDS = [':0,0', ':2,1', ':0', ':65536', ':4294967296', ':18446744073709551616', ':1,18446744073709551615', ':4294967295,']
 FLAGS = ['(?i)', '(?-i)', '(?i-i)', '(?-ii)']
